@@ -238,3 +238,48 @@ def payload_cx(model, arrs, **kw):
 def from_payload_cx(p, key):
     a = np.array(p[key], dtype=float)
     return a[..., 0] + 1j * a[..., 1]
+
+
+import random
+
+
+def matched_congruence(chk, ctx, n_code, inputs, label, key, rp, kinds=('log', 'sqrt', 'recip'), base=()):
+    """pair every abstracted-function application made by the reference (aux entries from n_code on) with the application made by
+    the code on a numerically equal argument; the equality of the two argument terms becomes its own solver obligation (an identity),
+    and is handed to the main obligation as a hypothesis together with the congruence instance  arg_c == arg_r -> f(arg_c) == f(arg_r)"""
+    rng = random.Random(7)
+    envs = []
+    for _ in range(2):
+        env = random_env(inputs, rng)
+        for var, kind, data in ctx.aux:       # free variables introduced by stubs are not in `inputs`
+            pass
+        envs.append(env)
+    code = [(v, k, d) for v, k, d in ctx.aux[:n_code] if k in kinds and isinstance(d, ir.N)]
+    ref = [(v, k, d) for v, k, d in ctx.aux[n_code:] if k in kinds and isinstance(d, ir.N)]
+    hyps = []
+    if not ref:
+        return hyps
+    allv = ir.variables([d for _, _, d in code + ref])
+    vals = []
+    for env in envs:
+        for n_ in allv:
+            env.setdefault(n_.val, rng.uniform(0.2, 1.5))
+        complete_env(ctx, env)
+        vals.append(env)
+    for vr, kr, dr in ref:
+        for vc, kc, dc in code:
+            if kc != kr:
+                continue
+            try:
+                same = all(abs(ir.evaluate([dc], e)[0] - ir.evaluate([dr], e)[0]) < 1e-9 for e in vals)
+            except Exception:
+                same = False
+            if same:
+                eq = ir.rcmp('eq', dc, dr)
+                if dc is not dr:
+                    chk.add(f'{label}: argument of {kr} in the code == argument in the reference formula', list(base), eq, key=key, replay=rp)
+                hyps += [eq, ir.rcmp('eq', vc, vr)] if dc is dr else [eq, ir.bor(ir.bnot(eq), ir.rcmp('eq', vc, vr))]
+                break
+    return hyps
+
+
